@@ -425,3 +425,16 @@ PROPS["C17"] = dict(
         trace("free-running-stress-race-detector", ["conc", "-n", "12" if tier == "quick" else "60"], "Trace_Conc.tla", "Trace_Conc.cfg", race=True),
     ],
 )
+
+PROPS["C18"] = dict(
+    rule="BFS over the structured space: 14 opset import lists (empty, 13, 12, 14, 21, 0, negative, ml-domain entries, mixtures) x graph "
+         "present / absent; 9 kinds of initializer (good, short, long, ragged payload, negative dims, unsupported type, huge dims, ...); "
+         "each with its exact expected outcome (ok / error / unsupported-opset error) and each additionally perturbed by the harness "
+         "(truncation at every offset, every byte set to 00 / FF / 80: ok or error, never a panic); Run on chains of 1..3 nodes with 9 "
+         "unregistered operator types at every position, also directly after a multi-output node (unsupported-operator error); the "
+         "repository's 6 sample files (two are not models) with the same perturbation sweeps; seeded random byte strings; non-trivial "
+         "= every structured case",
+    assumptions=["byte-level perturbations are a sweep whose only oracle is 'no panic'; the structured space and the error classes come from the specification"],
+    stages=lambda tier: [mc("load", "MC_C18.tla", "MC_C18_%s.cfg" % tier, min_cases=150, workers=4,
+                            constants=dict(Seed=str(__import__("os").environ.get("VERIF_SEED", "1") or "1")))],
+)
